@@ -197,6 +197,10 @@ class Continuous(Harness):
                 for kinds in itertools.product("01", repeat=n):
                     for ticks in itertools.product("01", repeat=n - 1):
                         out.append({"sides": "".join(sides), "kinds": "".join(kinds), "ticks": "".join(ticks)})
+        # submitted prices off the tick grid (any positive real, tick 1): limit orders only, N = 3
+        for sides in itertools.product("BS", repeat=3):
+            for ticks in ("00", "11"):
+                out.append({"sides": "".join(sides), "kinds": "000", "ticks": ticks, "real": True})
         return out
 
     def run(self, g, case):
@@ -211,9 +215,13 @@ class Continuous(Harness):
                 tick(m)
             is_buy = case["sides"][i] == "B"
             # accepted price 0 is legal (a positive bid below one tick is floored to it)
-            o = new_order(g, str(i), is_buy=is_buy, market=case["kinds"][i] == "1", price_lo=0)
-            vol, price = o.volume, o.price
+            if case.get("real"):
+                o = new_order(g, str(i), is_buy=is_buy, price=g.real(f"pr_{i}", 0, 1000, lo_strict=True))
+            else:
+                o = new_order(g, str(i), is_buy=is_buy, market=case["kinds"][i] == "1", price_lo=0)
+            vol = o.volume
             log = m._add_order(o)
+            price = log.price          # the accepted (tick-rounded) limit
             rec = {"id": log.order_id, "is_buy": is_buy, "is_market": case["kinds"][i] == "1",
                    "price": price, "time": m.get_time(), "volume": vol}
             resting_prices = [a["price"] for a in acc if not a["is_market"]]
